@@ -339,9 +339,11 @@ def build():
         functions=["_decode_date_format", "_decode_date_format_field", "DATETIME_FIELD_MAP", "Cell._duration_format", "_auto_units", "_unit_format"]))
     plan.assumptions += [
         "_auto_units is proved for whole numbers of seconds (Python ints); fractional values take the millisecond branch (stand-in)",
+        "A-REAL (fractional labels of _duration_format and _auto_units): floats as mathematical reals - + - * / exact, round() round-half-even, int() "
+        "truncation, math.floor the real floor; the rounding error of each machine operation is assumed away (pyvc/realfloat.py)",
         "_duration_format is proved for whole numbers of seconds 0 <= d < 2**53 (a float holding a whole number is modelled as a Python int), explicit units, "
-        "short and long style; lemma FDIV-TRUNC (int(a / b) == a // b for such integers) is assumed, with its argument; fractional durations, automatic "
-        "units composed with _auto_units and the compact style: bounded stand-in",
+        "short and long style; lemma FDIV-TRUNC (int(a / b) == a // b for such integers) is assumed, with its argument; and, under A-REAL, for every duration >= 0 (milliseconds to the nearest); automatic "
+        "units composed with _auto_units, the compact style and the effect of machine rounding on fractional durations: bounded stand-in",
         "the documented meanings are those of docs/api/datetime.rst (y: the full year, as corrected by fix: e49d46d); strftime locale is C/English",
         "the format parser and _duration_format are not under contract (string induction / float division): bounded stand-in with an independent oracle",
     ]
